@@ -440,6 +440,15 @@ func (r *checkRun) finish(w *World) int {
 					continue
 				}
 			}
+			if o.Result == "error" {
+				// the query could not be written or run at all (file system, solver start): nothing is known about
+				// the obligation. Not a verdict on the property: reported as undecided (exit 2), never as a violation.
+				fmt.Printf("UNDECIDED %s: the obligation could not be submitted to the solvers (%s)\n", o.Name, o.Detail)
+				r.staleContracts = append(r.staleContracts, o.Name+": solver infrastructure error: "+o.Detail)
+				total--
+				fobl--
+				continue
+			}
 			// failed obligation
 			isKnown := false
 			for _, k := range known {
